@@ -138,7 +138,9 @@ def equal_value(kind, supplied, got):
     return False
 
 
-PARAM_SHAPES = [{}, {"X-P": "v"}, {"X-LIST": ["a", "b"]}, {"X-Q": "a;b,c:d"}, {"x-lower": "Mixed Case"}]
+PARAM_SHAPES = [{}, {"X-P": "v"}, {"X-LIST": ["a", "b"]}, {"X-Q": "a;b,c:d"}, {"x-lower": "Mixed Case"},
+                # sequences that are escapes in RFC 6868 / URL encoding are plain text in RFC 5545 parameter values
+                {"X-C": "x^n y^^ z^' 100%41"}]
 
 
 def split_params(head):
@@ -189,6 +191,19 @@ def observe(n, k, route, pshape, nested, rnd):
     except Exception:   # noqa: BLE001
         supplied = handed
     handed_params = params
+    if route in ("setter", "item") and rnd.random() < 0.5:
+        # the slot was in use before: a value of ANOTHER kind with parameters of its own is replaced; nothing of it survives
+        prev = {"DTSTART": tzp.localize(datetime(2020, 2, 2, 2, 2), "America/New_York"), "DTEND": tzp.localize(datetime(2020, 2, 2, 3, 2), "America/New_York"),
+                "DUE": date(2020, 2, 2), "TRIGGER": datetime(2020, 2, 2, 2, 2, tzinfo=UTC), "DURATION": timedelta(days=3)}.get(n)
+        if prev is not None:
+            try:
+                if route == "setter":
+                    setattr(comp, SETTER[n], prev)
+                else:
+                    comp[n] = Component._encode(n, prev, {"X-OLD": "stale"})
+                comp[n].params["X-OLD"] = "stale"
+            except Exception:   # noqa: BLE001  (not every kind is accepted by every slot)
+                comp.pop(n, None)
     if route == "setter":
         setattr(comp, SETTER[n], handed)
         if params:
